@@ -157,9 +157,12 @@ pub proof fn lemma_int_vars_final2(iv: Seq<String>, r: asp::Rule)
 /// the key under which the natural translation refers to the program variable named n
 pub open spec fn nkey(iv: Seq<String>, n: Seq<char>) -> VKey { if is_int_var(iv, n) { (n, Sort::Integer) } else { (n, Sort::General) } }
 
-/// g (values of the program variables) and s (assignment of the natural formula) agree on the program variables in `rel`; integer variables hold integers
+/// the value the natural translation reads for the program variable named n: integer variables are read as integers
+pub open spec fn nval(s: Asg, iv: Seq<String>, n: Seq<char>) -> Val { if is_int_var(iv, n) { Val::Int(as_int(s[(n, Sort::Integer)])) } else { s[(n, Sort::General)] } }
+
+/// g (values of the program variables) and s (assignment of the natural formula) agree on the program variables in `rel`
 pub open spec fn corr(g: Asg, s: Asg, iv: Seq<String>, rel: spec_fn(VKey) -> bool) -> bool {
-    forall|k: VKey| rel(k) ==> #[trigger] g[k] == s[nkey(iv, k.0)] && (is_int_var(iv, k.0) ==> g[k] is Int)
+    forall|k: VKey| rel(k) ==> #[trigger] g[k] == nval(s, iv, k.0)
 }
 
 /// every variable of an argument built with an operation is an integer variable (true for the integer variables of the rule)
@@ -198,14 +201,15 @@ pub proof fn lemma_p2f_value(t: asp::Term, iv: Seq<String>, gt: GeneralTerm, fc:
         asp::Term::Variable(x) => {
             let k = asp_var_key(x);
             assert(rel(k));
-            assert(g[k] == s[nkey(iv, k.0)]);
+            assert(g[k] == nval(s, iv, k.0));
         }
         asp::Term::PrecomputedTerm(p) => {}
         _ => {
             let it = spec_p2f_int(t)->Some_0;
-            assert forall|k: VKey| #[trigger] asp_in_term(t, k) implies s[(k.0, Sort::Integer)] == g[k] && g[k] is Int by {
+            assert forall|k: VKey| #[trigger] asp_in_term(t, k) implies as_int(s[(k.0, Sort::Integer)]) == as_int(g[k]) && g[k] is Int by {
                 assert(rel(k));
                 assert(is_int_var(iv, k.0));
+                assert(g[k] == nval(s, iv, k.0));
             }
             assert(int_view_on(t, s, g));
             assert(ints_ok(t, g));
@@ -243,7 +247,7 @@ pub proof fn lemma_p2f_tuple(terms: Seq<asp::Term>, iv: Seq<String>, gts: Seq<Ge
     assert forall|i: int, v: Val| 0 <= i < terms.len() implies #[trigger] in_vals(terms[i], g, v) == (v == ev[i]) by {
         assert(spec_p2f(terms[i], iv) == Some(gts[i]));
         assert(corr(g, s, iv, |k: VKey| asp_in_term(terms[i], k))) by {
-            assert forall|k: VKey| #[trigger] asp_in_term(terms[i], k) implies g[k] == s[nkey(iv, k.0)] && (is_int_var(iv, k.0) ==> g[k] is Int) by { assert(terms_in(terms, k)); }
+            assert forall|k: VKey| #[trigger] asp_in_term(terms[i], k) implies g[k] == nval(s, iv, k.0) by { assert(terms_in(terms, k)); }
         }
         lemma_p2f_value(terms[i], iv, gts[i], fc, g, s, v);
     }
@@ -330,10 +334,10 @@ pub proof fn lemma_nat_cmp_plain(c: asp::Comparison, iv: Seq<String>, lhs: Gener
     let a0 = eval_gen(lhs, m.fc, s);
     let b0 = eval_gen(rhs, m.fc, s);
     assert(corr(g, s, iv, |k: VKey| asp_in_term(c.lhs, k))) by {
-        assert forall|k: VKey| #[trigger] asp_in_term(c.lhs, k) implies g[k] == s[nkey(iv, k.0)] && (is_int_var(iv, k.0) ==> g[k] is Int) by { assert(cmp_in(c, k)); }
+        assert forall|k: VKey| #[trigger] asp_in_term(c.lhs, k) implies g[k] == nval(s, iv, k.0) by { assert(cmp_in(c, k)); }
     }
     assert(corr(g, s, iv, |k: VKey| asp_in_term(c.rhs, k))) by {
-        assert forall|k: VKey| #[trigger] asp_in_term(c.rhs, k) implies g[k] == s[nkey(iv, k.0)] && (is_int_var(iv, k.0) ==> g[k] is Int) by { assert(cmp_in(c, k)); }
+        assert forall|k: VKey| #[trigger] asp_in_term(c.rhs, k) implies g[k] == nval(s, iv, k.0) by { assert(cmp_in(c, k)); }
     }
     assert forall|a: Val, b: Val| #[trigger] trv2(a, b) implies in_vals(c.lhs, g, a) == (a == a0) && in_vals(c.rhs, g, b) == (b == b0) by {
         lemma_p2f_value(c.lhs, iv, lhs, m.fc, g, s, a);
@@ -362,13 +366,13 @@ pub proof fn lemma_nat_cmp_interval(c: asp::Comparison, iv: Seq<String>, lhs: Ge
     assert forall|k: VKey| #[trigger] asp_in_term(t3, k) implies is_int_var(iv, k.0) by { assert(asp_in_term(c.rhs, k) == (asp_in_term(t2, k) || asp_in_term(t3, k))); }
     assert(arith_closed(t2, iv) && arith_closed(t3, iv));
     assert(corr(g, s, iv, |k: VKey| asp_in_term(c.lhs, k))) by {
-        assert forall|k: VKey| #[trigger] asp_in_term(c.lhs, k) implies g[k] == s[nkey(iv, k.0)] && (is_int_var(iv, k.0) ==> g[k] is Int) by { assert(cmp_in(c, k)); }
+        assert forall|k: VKey| #[trigger] asp_in_term(c.lhs, k) implies g[k] == nval(s, iv, k.0) by { assert(cmp_in(c, k)); }
     }
     assert(corr(g, s, iv, |k: VKey| asp_in_term(t2, k))) by {
-        assert forall|k: VKey| #[trigger] asp_in_term(t2, k) implies g[k] == s[nkey(iv, k.0)] && (is_int_var(iv, k.0) ==> g[k] is Int) by { assert(cmp_in(c, k)); }
+        assert forall|k: VKey| #[trigger] asp_in_term(t2, k) implies g[k] == nval(s, iv, k.0) by { assert(cmp_in(c, k)); }
     }
     assert(corr(g, s, iv, |k: VKey| asp_in_term(t3, k))) by {
-        assert forall|k: VKey| #[trigger] asp_in_term(t3, k) implies g[k] == s[nkey(iv, k.0)] && (is_int_var(iv, k.0) ==> g[k] is Int) by { assert(cmp_in(c, k)); }
+        assert forall|k: VKey| #[trigger] asp_in_term(t3, k) implies g[k] == nval(s, iv, k.0) by { assert(cmp_in(c, k)); }
     }
     assert forall|v: Val| in_vals(c.lhs, g, v) == (v == a0) by { lemma_p2f_value(c.lhs, iv, lhs, m.fc, g, s, v); }
     assert forall|v: Val| in_vals(t2, g, v) == (v == v2) by { lemma_p2f_value(t2, iv, lo, m.fc, g, s, v); }
@@ -516,7 +520,7 @@ pub proof fn lemma_nat_body(f: Formula, body: Seq<asp::AtomicFormula>, iv: Seq<S
         assert(nat_af_shape(fs[i], body[i], iv));
         assert(af_closed(body[i], iv));
         assert(corr(g, s, iv, |k: VKey| af_in(body[i], k))) by {
-            assert forall|k: VKey| af_in(body[i], k) implies #[trigger] g[k] == s[nkey(iv, k.0)] && (is_int_var(iv, k.0) ==> g[k] is Int) by { assert(body_in(body, k)); }
+            assert forall|k: VKey| af_in(body[i], k) implies #[trigger] g[k] == nval(s, iv, k.0) by { assert(body_in(body, k)); }
         }
         lemma_nat_af(fs[i], body[i], iv, w, m, g, s);
     }
